@@ -361,7 +361,14 @@ class Normaliser:
             for g in n.generators:
                 it = self.ex(g.iter, e2)
                 tv = self.bind_target(g.target, e2)
-                gens.append((tv, it, tuple(self.ex(c, e2) for c in g.ifs)))
+                conds = []
+                for c in g.ifs:   # `if a and b` is `if a if b`
+                    pos_, t_ = self.test(c, e2)
+                    if pos_ and isinstance(t_, tuple) and len(t_) == 3 and t_[0] == "bool" and t_[1] == "And":
+                        conds.extend(t_[2])
+                    else:
+                        conds.append(t_ if pos_ else ("not", t_))
+                gens.append((tv, it, tuple(conds)))
             if isinstance(n, ast.DictComp):
                 return ("comp", "dict", ("kv", self.ex(n.key, e2), self.ex(n.value, e2)), tuple(gens))
             kind = {"ListComp": "list", "SetComp": "set", "GeneratorExp": "gen"}[type(n).__name__]
@@ -404,6 +411,10 @@ class Normaliser:
             for a in n.args:   # f(*(a, b)) is f(a, b)
                 flat.extend(a.value.elts if isinstance(a, ast.Starred) and isinstance(a.value, (ast.Tuple, ast.List)) else [a])
             n = ast.Call(func=n.func, args=flat, keywords=n.keywords)
+        if isinstance(f, ast.Name) and f.id == "map" and "map" not in benv:
+            g = _map_as_genexp(n, self)
+            if g is not n:
+                return self.ex(g, benv)
         if isinstance(f, ast.Name) and f.id in self.helpers and f.id not in benv and self.depth < 3:
             r = self.inline(self.helpers[f.id], n, benv)
             if r is not None:
@@ -424,6 +435,8 @@ class Normaliser:
         args = [self.ex(a, benv) for a in n.args]
         if (fname in CONSUMERS or (isinstance(f, ast.Attribute) and f.attr == "join")) and args and isinstance(args[0], tuple) and args[0] and args[0][0] == "comp" and args[0][1] == "list":
             args[0] = ("comp", "gen") + args[0][2:]   # the consumer only iterates: a list comprehension and a generator expression coincide
+        if fname in ("list", "set") and fname not in benv and len(args) == 1 and not n.keywords and isinstance(args[0], tuple) and args[0] and args[0][0] == "comp" and args[0][1] in ("gen", "list"):
+            return ("comp", fname) + args[0][2:]   # list(e for ...) is [e for ...]
         kws = [(k.arg, self.ex(k.value, benv)) for k in n.keywords]
         fn_form = self.ex(f, benv)
         if fn_form == (".", ("n", "warnings"), "warn") and args:
@@ -595,6 +608,9 @@ class Normaliser:
         """an IfExp inside the expressions whose test does not depend on a name bound inside the expression around it"""
         def rec(n, bound):
             if isinstance(n, ast.IfExp):
+                inner = rec(n.test, bound)
+                if inner is not None:
+                    return inner   # a conditional expression inside the test is decided first
                 if not (_bound_names(n.test) & bound):
                     return n
             if isinstance(n, ast.Lambda):
@@ -977,7 +993,7 @@ class Normaliser:
                 if lo_hi is not None:
                     item = ast.Subscript(value=src.value, slice=ast.Constant(value=lo_hi + i), ctx=ast.Load())   # a, b = x[1:3]: x[1], x[2]
                 else:
-                    item = ast.Call(func=ast.Name(id="\x00unpack", ctx=ast.Load()), args=[src, ast.Constant(value=i), ast.Constant(value=n_t)], keywords=[])
+                    item = ast.Subscript(value=src, slice=ast.Constant(value=i), ctx=ast.Load())   # a, b = e reads e[0], e[1] (stated assumption: e is a sequence of that length)
                 item._unpacked_item = True
                 self.assign(t, item, env, eff, True)
             return
@@ -1414,6 +1430,7 @@ class _Prepass(ast.NodeTransformer):
         out = []
         i = 0
         body = [_setdefault_as_if(s) for s in body]
+        body = [s2 for s in body for s2 in _split_tuple_assign(s)]
         # pre-order: an empty container initialised right before an if whose arms fill it moves into the arms
         pre = []
         k = 0
@@ -1457,7 +1474,7 @@ class _Prepass(ast.NodeTransformer):
                 continue
             # for t in it: if c: return K      followed by   return not K     ->  return any(...) / not any(...)
             if isinstance(s, ast.For) and isinstance(nxt, ast.Return):
-                c = _loop_as_any(s, nxt)
+                c = _loop_as_any(s, nxt, self.read_outside.get(id(s)))
                 if c is not None:
                     out.append(c)
                     i += 2
@@ -1590,10 +1607,15 @@ def _loop_as_comprehension(s, lp, read_outside=None):
     return None
 
 
-def _loop_as_any(lp, ret):
-    if lp.orelse or len(lp.body) != 1 or not isinstance(lp.body[0], ast.If) or lp.body[0].orelse:
+def _loop_as_any(lp, ret, read_outside=None):
+    body = lp.body
+    if len(body) > 1:
+        body = _inline_leading_temps(body, read_outside)   # temporaries of the iteration in front of the test
+        if body is None:
+            return None
+    if lp.orelse or len(body) != 1 or not isinstance(body[0], ast.If) or body[0].orelse:
         return None
-    inner = lp.body[0]
+    inner = body[0]
     if len(inner.body) != 1 or not isinstance(inner.body[0], ast.Return):
         return None
     a, b = inner.body[0].value, ret.value
@@ -1947,6 +1969,17 @@ def inline_procedures(fn, helpers, methods):
     return fn
 
 
+def _split_tuple_assign(s):
+    """`a, b = x, y` with neither name occurring in x or y is `a = x; b = y`"""
+    if isinstance(s, ast.Assign) and len(s.targets) == 1 and isinstance(s.targets[0], ast.Tuple) and isinstance(s.value, ast.Tuple) \
+            and len(s.targets[0].elts) == len(s.value.elts) and all(isinstance(t, ast.Name) for t in s.targets[0].elts):
+        names = {t.id for t in s.targets[0].elts}
+        if len(names) == len(s.targets[0].elts) and not any(isinstance(x, ast.Name) and x.id in names for v in s.value.elts for x in ast.walk(v)) \
+                and not any(isinstance(x, (ast.Lambda, ast.Starred)) for v in s.value.elts for x in ast.walk(v)):
+            return [ast.fix_missing_locations(ast.copy_location(ast.Assign(targets=[ast.Name(id=t.id, ctx=ast.Store())], value=v), s)) for t, v in zip(s.targets[0].elts, s.value.elts)]
+    return [s]
+
+
 def _setdefault_as_if(s):
     """`d.setdefault(k, v)` as a statement  ->  `if k not in d: d[k] = v`"""
     if isinstance(s, ast.Expr) and isinstance(s.value, ast.Call) and isinstance(s.value.func, ast.Attribute) and s.value.func.attr == "setdefault" \
@@ -1977,6 +2010,30 @@ def _merge_if_arms(s):
             and isinstance(a.targets[0], (ast.Subscript, ast.Attribute)) and ast.dump(a.targets[0]) == ast.dump(b.targets[0]):
         return ast.fix_missing_locations(ast.copy_location(ast.Assign(targets=a.targets, value=ast.IfExp(test=s.test, body=a.value, orelse=b.value)), s))
     return s
+
+
+def _map_as_genexp(node, prepass_obj):
+    """map(f, xs[, ys ...]) with f a plain (dotted) name is the generator expression (f(x) for x in xs) / (f(x, y) for x, y in zip(xs, ys)): both are lazy
+    and call f once per item, in order"""
+    f = node.func
+    if not (isinstance(f, ast.Name) and f.id == "map" and len(node.args) >= 2 and not node.keywords and not any(isinstance(a, ast.Starred) for a in node.args)):
+        return node
+    fn = node.args[0]
+    probe = fn
+    while isinstance(probe, ast.Attribute):
+        probe = probe.value
+    if not isinstance(probe, ast.Name):
+        return node
+    prepass_obj.n_map = getattr(prepass_obj, "n_map", 0) + 1
+    names = ["_map%d_%d" % (prepass_obj.n_map, i) for i in range(len(node.args) - 1)]
+    if len(names) == 1:
+        target = ast.Name(id=names[0], ctx=ast.Store())
+        it = node.args[1]
+    else:
+        target = ast.Tuple(elts=[ast.Name(id=n_, ctx=ast.Store()) for n_ in names], ctx=ast.Store())
+        it = ast.Call(func=ast.Name(id="zip", ctx=ast.Load()), args=list(node.args[1:]), keywords=[])
+    elt = ast.Call(func=fn, args=[ast.Name(id=n_, ctx=ast.Load()) for n_ in names], keywords=[])
+    return ast.fix_missing_locations(ast.copy_location(ast.GeneratorExp(elt=elt, generators=[ast.comprehension(target=target, iter=it, ifs=[], is_async=0)]), node))
 
 
 def _min_max_as_ifexp(node):
